@@ -1,0 +1,40 @@
+//go:build verif
+// +build verif
+
+// Verification hooks. Compiled only with `-tags verif`; add-only.
+
+package sqlittle
+
+import (
+	sdb "github.com/alicebob/sqlittle/db"
+)
+
+// VerifWrap makes a high-level DB from a low-level Database (which can be
+// opened on a custom pager with db.VerifOpen).
+func VerifWrap(d *sdb.Database) *DB {
+	return &DB{db: d}
+}
+
+// VerifLow gives the low-level Database of a DB.
+func VerifLow(d *DB) *sdb.Database {
+	return d.db
+}
+
+// VerifStoreOrder exposes the on-disk column order used for a WITHOUT ROWID
+// table: result[i] is the position in the stored record of table column i.
+func VerifStoreOrder(s *sdb.Schema) []int {
+	return columnStoreOrder(s)
+}
+
+// VerifIndexLayout exposes how an index of a WITHOUT ROWID table is read: the
+// positions in the index record holding the primary key columns, and the
+// full (key + appended) column list of the index after those are added. It
+// works on a copy, the schema is not changed.
+func VerifIndexLayout(s *sdb.Schema, ind *sdb.SchemaIndex) ([]int, []sdb.IndexColumn) {
+	cp := sdb.SchemaIndex{
+		Index:   ind.Index,
+		Columns: append([]sdb.IndexColumn(nil), ind.Columns...),
+	}
+	pk := pkColumns(s, &cp)
+	return pk, cp.Columns
+}
